@@ -223,17 +223,18 @@ def shapes(tier):
     for sa in pos:
         for sb in pos:
             jobs.append(('mul_win', dict(sa=sa, sb=sb)))
-    for sa, sb, sc in ((0, 124, 60), (124, 124, 0), (60, 0, 0)) if th else ((0, 124, 60),):
+    for sa, sb, sc in ((0, 124, 60), (60, 0, 0)) if th else ((0, 124, 60),):        # (124, 124, 0): worker exceeds 6 GB (measured): outside
         jobs.append(('mul_win', dict(sa=sa, sb=sb, sc=sc, dist=True)))
     for sa in pos if th else (0, 124):
         jobs.append(('inverse', dict(sa=sa)))
     import itertools
     # structure of split() at full width (secret and coefficients: 128 symbolic bits each)
-    for k, n in ((2, 2), (2, 3), (3, 3)) if not th else ((2, 2), (2, 3), (3, 3), (3, 4), (2, 4), (4, 4)):
+    for k, n in ((2, 2), (2, 3), (3, 3)) if not th else ((2, 2), (2, 3), (3, 3), (3, 4), (2, 4)):      # (4, 4): no answer in 900 s (measured)
         for ssss in (False, True):
             jobs.append(('split_combine', dict(k=k, n=n, ssss=ssss)))
     # reconstruction on 4-bit-window field elements
-    for k, n in ((2, 2), (2, 3)) if not th else ((2, 2), (2, 3), (3, 3), (3, 4)):
+    # reconstruction with k = 3 was tried in the thorough tier: time / memory budgets exceeded or z3 unknown on every window: outside
+    for k, n in ((2, 2), (2, 3)) if not th else ((2, 2), (2, 3), (2, 4)):
         subs = [list(p) for c in itertools.combinations(range(n), k) for p in itertools.permutations(c)]
         if not th:
             subs = subs[:3]
@@ -245,8 +246,8 @@ def shapes(tier):
 
 BOUNDS = dict(mul_step="all 2^384 states (z, v, f2) with v, z, f2 < 2^128 (one inductive iteration)",
               windows="field elements with 4 free bits at bit positions 0 / 60 / 124",
-              sharing="split(): k <= 4, n <= 4 with secret and all coefficients symbolic at full width (structure: RNG draws, Horner evaluation); "
-              "combine(split()): k <= 3, n <= 4, every k-subset in every order, secret/coefficients with 4 free bits at positions 0/60/124",
+              sharing="split(): k <= 3, n <= 4 with secret and all coefficients symbolic at full width (structure: RNG draws, Horner evaluation); "
+              "combine(split()): k = 2, n <= 3 (thorough 4), every 2-subset in every order, secret/coefficients with 4 free bits at positions 0/60/124",
               outside=["associativity / commutativity / distributivity / inverses of __mul__ at full width (not SMT-decidable here)",
                        "hence full-width reconstruction for large share indexes and the 'k-1 shares reveal nothing' consequence",
                        "share indexes above 4"])
